@@ -286,3 +286,13 @@ REGISTRY["C06"]["engines"] = [engine_ksched, engine_kgraph.run]
 REGISTRY["C06"]["rule"] = SCHED_RULE + " || " + GRAPH_RULE
 for _p in ("C07", "C12", "C13"):
     REGISTRY[_p] = dict(engines=[engine_kgraph.run], rule=GRAPH_RULE, assumptions=["the node table (dependencies, priorities, debug/setup flags, tags) is read from the DAG the implementation built (layering)", "networkx primitives as modelled in Graph.v"])
+
+from . import engine_kvalue  # noqa: E402
+
+VALUE_RULE = ("K-value cases: random describing functions over the C01 fragment (positional / keyword / default / constant arguments, indexing, unpack_to, operators, and_/or_/not_, reused functions, "
+              "every return shape, defaulted DAG parameters, nested DAG calls up to depth 3 with and without twz_active, every flag form) x 2 argument tuples; each run by tawazi (controlled random schedule or free run, "
+              "sync or async flavour, optionally reconfigured through dict / JSON / YAML), by plain Python (reference) and by the model's denotation on the node table tawazi built; "
+              "distinct = hash of (program, arguments); non-trivial = at least 2 statements")
+VALUE_ASSUME = ["node functions are pure; Herbrand-term values with declared truthiness", "the node table (references, key paths, flags) is read from the DAG the implementation built (layering); that it is what the describing function denotes is checked against the plain-Python reference"]
+for _p in ("C01", "C10", "C20"):
+    REGISTRY[_p] = dict(engines=[engine_kvalue.run], rule=VALUE_RULE, assumptions=VALUE_ASSUME)
